@@ -734,18 +734,13 @@ func (m *Mint) GetMeltQuoteState(ctx context.Context, quoteId string) (storage.M
 			m.logInfof("payment %v succeded. setting melt quote '%v' to paid and invalidating proofs",
 				meltQuote.PaymentHash, meltQuote.Id)
 
-			m.proofsMu.Lock()
-			proofs, err := m.removePendingProofsForQuote(meltQuote.Id)
+			proofs, Ys, err := m.pendingProofsForQuote(meltQuote.Id)
 			if err != nil {
-				m.proofsMu.Unlock()
-				errmsg := fmt.Sprintf("error removing pending proofs for quote: %v", err)
+				errmsg := fmt.Sprintf("error getting pending proofs for quote: %v", err)
 				return storage.MeltQuote{}, cashu.BuildCashuError(errmsg, cashu.DBErrCode)
 			}
-			err = m.db.SaveProofs(proofs)
-			m.proofsMu.Unlock()
-			if err != nil {
-				errmsg := fmt.Sprintf("error invalidating proofs. Could not save proofs to db: %v", err)
-				return storage.MeltQuote{}, cashu.BuildCashuError(errmsg, cashu.DBErrCode)
+			if err := m.settleProofs(Ys, proofs); err != nil {
+				return storage.MeltQuote{}, err
 			}
 
 			meltQuote.State = nut05.Paid
@@ -755,7 +750,6 @@ func (m *Mint) GetMeltQuoteState(ctx context.Context, quoteId string) (storage.M
 				errmsg := fmt.Sprintf("error updating melt quote state: %v", err)
 				return storage.MeltQuote{}, cashu.BuildCashuError(errmsg, cashu.DBErrCode)
 			}
-			m.publishProofsStateChanges(proofs, nut07.Spent)
 
 		case lightning.Failed:
 			m.logInfof("payment %v failed with error: %v. Setting melt quote '%v' to unpaid and removing proofs from pending",
@@ -776,6 +770,28 @@ func (m *Mint) GetMeltQuoteState(ctx context.Context, quoteId string) (storage.M
 	}
 
 	return meltQuote, nil
+}
+
+// pendingProofsForQuote returns the proofs (and their Ys) that are pending for the quote
+func (m *Mint) pendingProofsForQuote(quoteId string) (cashu.Proofs, []string, error) {
+	dbproofs, err := m.db.GetPendingProofsByQuote(quoteId)
+	if err != nil {
+		return nil, nil, err
+	}
+
+	proofs := make(cashu.Proofs, len(dbproofs))
+	Ys := make([]string, len(dbproofs))
+	for i, dbproof := range dbproofs {
+		Ys[i] = dbproof.Y
+		proofs[i] = cashu.Proof{
+			Amount:  dbproof.Amount,
+			Id:      dbproof.Id,
+			Secret:  dbproof.Secret,
+			C:       dbproof.C,
+			Witness: dbproof.Witness,
+		}
+	}
+	return proofs, Ys, nil
 }
 
 func (m *Mint) removePendingProofsForQuote(quoteId string) (cashu.Proofs, error) {
@@ -1037,18 +1053,37 @@ func (m *Mint) settleQuotesInternally(
 // settleProofs will remove the proofs from the pending table
 // and mark them as spent by adding them to the used proofs table
 func (m *Mint) settleProofs(Ys []string, proofs cashu.Proofs) error {
-	// between the two writes the proofs are in neither table
 	m.proofsMu.Lock()
 	defer m.proofsMu.Unlock()
 
-	err := m.db.RemovePendingProofs(Ys)
+	// mark the proofs as spent before removing them from pending: if the mint
+	// dies in between they are in both tables (still unusable) instead of in neither.
+	// Proofs that an interrupted earlier attempt already marked as spent are skipped.
+	usedProofs, err := m.db.GetProofsUsed(Ys)
 	if err != nil {
-		errmsg := fmt.Sprintf("error removing pending proofs: %v", err)
+		errmsg := fmt.Sprintf("could not get used proofs from db: %v", err)
 		return cashu.BuildCashuError(errmsg, cashu.DBErrCode)
+	}
+	if len(usedProofs) > 0 {
+		toSave := make(cashu.Proofs, 0, len(proofs))
+		for _, proof := range proofs {
+			alreadyUsed := slices.ContainsFunc(usedProofs, func(used storage.DBProof) bool {
+				return used.Secret == proof.Secret
+			})
+			if !alreadyUsed {
+				toSave = append(toSave, proof)
+			}
+		}
+		proofs = toSave
 	}
 	err = m.db.SaveProofs(proofs)
 	if err != nil {
 		errmsg := fmt.Sprintf("error invalidating proofs. Could not save proofs to db: %v", err)
+		return cashu.BuildCashuError(errmsg, cashu.DBErrCode)
+	}
+	err = m.db.RemovePendingProofs(Ys)
+	if err != nil {
+		errmsg := fmt.Sprintf("error removing pending proofs: %v", err)
 		return cashu.BuildCashuError(errmsg, cashu.DBErrCode)
 	}
 	m.publishProofsStateChanges(proofs, nut07.Spent)
